@@ -104,3 +104,25 @@ class ModelView:
                     return s
             return "str:" + str(v)
         return str(v)
+
+
+TX_FIELDS = {
+    "InTransaction": ["exchange", "holder", "crypto_in", "crypto_fee", "fiat_fee", "fiat_in_no_fee", "fiat_in_with_fee"],
+    "OutTransaction": ["exchange", "holder", "crypto_out_no_fee", "crypto_fee", "crypto_out_with_fee", "fiat_out_no_fee", "fiat_fee", "fiat_out_with_fee"],
+    "IntraTransaction": ["from_exchange", "from_holder", "to_exchange", "to_holder", "crypto_sent", "crypto_received", "crypto_fee", "fiat_fee"],
+}
+
+
+def decode_tx(mv: ModelView, ref) -> Dict:
+    """All fields of a transaction object in the model, keyed by attribute name; 'cls' is the simple class name."""
+    q = mv.cls_name(ref) or ""
+    cls = q.rsplit(".", 1)[-1]
+    d = {"cls": cls, "timestamp": mv.field(ref, "AbstractTransaction.__timestamp"),
+         "type": str(mv.ev(mv.field_term(ref, "AbstractTransaction.__transaction_type"))),
+         "spot_price": mv.field(ref, "AbstractTransaction.__spot_price"), "row": mv.field(ref, "AbstractTransaction.__internal_id")}
+    for f in TX_FIELDS.get(cls, []):
+        try:
+            d[f] = mv.field(ref, f"{cls}.__{f}")
+        except Exception:
+            pass
+    return d
